@@ -37,6 +37,10 @@ var ErrNotDirectory = errors.New("not directory")
 
 // IsValidFileName checks if a file name is cross-platform compatible
 func IsValidFileName(fileName string) bool {
+	if fileName == "." || fileName == ".." {
+		// not a file name: refers to the current or the parent directory
+		return false
+	}
 	return regexp.MustCompile(`^[a-zA-Z0-9_.-]+$`).MatchString(fileName)
 }
 
